@@ -91,6 +91,7 @@ type Engine struct {
 	Violations  []*Violation
 	KnownSeen   map[string]string
 	KnownCex    []*KnownCex
+	pathEnds    []pathEnd
 	inited      map[*ssa.Package]bool
 	initState   *State
 	harness     string
@@ -698,6 +699,46 @@ func (e *Engine) noteKnown(id, kind, label, pos string, inputs map[string]interf
 	}
 }
 
+// pathEnd: a panic of the code under test outside a NoPanic region ends the path silently. If the harness
+// ends up without any reachable witness, these are examined: a harness that the code under test can only
+// leave by panicking is reported (after native replay) as a violation.
+type pathEnd struct {
+	pc        []*Term
+	extra     *Term
+	kind, pos string
+}
+
+func (e *Engine) notePathEnd(pc []*Term, extra *Term, kind, pos string) {
+	if len(e.pathEnds) < 6 {
+		e.pathEnds = append(e.pathEnds, pathEnd{pc: pc[:len(pc):len(pc)], extra: extra, kind: kind, pos: pos})
+	}
+}
+
+// vacuityViolations turns recorded path-end panics into violations when no witness is reachable.
+func (e *Engine) vacuityViolations() {
+	for _, ob := range e.Obligations {
+		if ob.Kind == "cover" {
+			return
+		}
+	}
+	n := 0
+	for _, pe := range e.pathEnds {
+		if n >= 2 {
+			break
+		}
+		r, vals, _, sname := e.checkSat(pe.pc, pe.extra, e.wantTerms())
+		if r != Sat {
+			continue
+		}
+		inputs, _ := e.decodeModel(vals)
+		ob := &Obligation{Kind: "pathpanic", Label: pe.kind, Pos: pe.pos, Verdict: "violated", Solver: sname, Model: inputs,
+			Detail: "no witness of the harness is reachable: the code under test leaves it only by panicking"}
+		e.Obligations = append(e.Obligations, ob)
+		e.Violations = append(e.Violations, &Violation{Ob: ob, Inputs: inputs})
+		n++
+	}
+}
+
 // knownWhere: does a KnownPanic declaration "site" or "site | kind" cover a panic of this kind at pos?
 func knownWhere(where, pos, kind string) bool {
 	if i := strings.Index(where, " | "); i >= 0 {
@@ -741,6 +782,9 @@ func (e *Engine) knownSite(kind, pos string) string {
 // terminate records the end of a path because of a panic.
 func (e *Engine) panicPath(st *State, kind string, ins ssa.Instruction) {
 	pos := e.pos(ins)
+	if !st.noPanic && !inHarnessSupport(ins) {
+		e.notePathEnd(st.pc, nil, kind, pos)
+	}
 	if st.noPanic && !inHarnessSupport(ins) {
 		// known panic sites
 		for _, kp := range st.knownPan {
